@@ -147,7 +147,16 @@ func (w *Wallet) FundPsbt(packet *psbt.Packet, keyScope *waddrmgr.KeyScope,
 		// makeInputSource() that selects a subset that is "large
 		// enough".
 		credits := make([]wtxmgr.Credit, len(txIn))
+		seenInputs := make(map[wire.OutPoint]struct{}, len(txIn))
 		for idx, in := range txIn {
+			// An output can only be spent once, listing it twice
+			// would count its value twice when funding.
+			if _, ok := seenInputs[in.PreviousOutPoint]; ok {
+				return 0, fmt.Errorf("input %v is listed more "+
+					"than once", in.PreviousOutPoint)
+			}
+			seenInputs[in.PreviousOutPoint] = struct{}{}
+
 			utxo := packet.Inputs[idx].WitnessUtxo
 			credits[idx] = wtxmgr.Credit{
 				OutPoint: in.PreviousOutPoint,
